@@ -92,6 +92,12 @@ void ezc3d::Header::print() const{
 
 void ezc3d::Header::write(std::fstream &f) const
 {
+    // The counts and the frame numbers are stored on two bytes each
+    if (_nb3dPoints > 65535 || _nbAnalogsMeasurement > 65535 || _nbAnalogByFrame > 65535)
+        throw std::range_error("There are too many points or analogs to be written in a c3d file (65535 at most)");
+    if (_firstFrame + 1 > 65535 || _lastFrame + 1 > 65535)
+        throw std::range_error("There are too many frames to be written in a c3d file (65535 at most)");
+
     // write the checksum byte and the start point of header
     int parameterAddessDefault(2);
     f.write(reinterpret_cast<const char*>(&parameterAddessDefault), ezc3d::BYTE);
